@@ -187,3 +187,159 @@ void h_kill(void)
 	r = CALL(iv_wait_interest_kill)(&v_I, verif_in.sig);
 	CANARY();
 }
+
+/* ====================================================================
+ * registration, unregistration, delivery loop (C11, C01)
+ * ================================================================== */
+static int g_ev_reg, g_ev_unreg, g_sig_reg, g_sig_unreg, g_forks, g_child_fn_calls, g_postfork;
+static int g_hcalls, g_hstatus[4], g_unreg_in_handler, g_unreg_other_in_handler;
+static struct iv_wait_interest v_J;	/* another interest of the same thread */
+static _Bool g_I_freed;
+
+int iv_event_register(struct iv_event *e) { g_ev_reg++; return 0; }
+void iv_event_unregister(struct iv_event *e) { g_ev_unreg++; }
+int iv_signal_register(struct iv_signal *s) { g_sig_reg++; return 0; }
+void iv_signal_unregister(struct iv_signal *s) { g_sig_unreg++; }
+void iv_signal_child_reset_postfork(void) { g_postfork++; }
+pid_t STUB(fork)(void)
+{
+	__CPROVER_assert(g_lock_held, "[C11] the child is created inside the critical section that also inserts its interest: the reaper cannot see the child's exit before the interest exists");
+	g_forks++;
+	return verif_in.kill_ret;	/* reused as the fork() result: <0 failure, >0 child pid (the child branch itself is not followed) */
+}
+void STUB(exit)(int c) { __CPROVER_assume(0); while (1); }
+
+struct verif_wait_extra { int dummy; };
+
+static void v_wait_handler(void *cookie, int status, const struct rusage *ru)
+{
+	__CPROVER_assert(cookie == (void *)&v_I && !g_I_freed, "[C11,C01] statuses are delivered to their own interest, and never after it was unregistered");
+	__CPROVER_assert(!g_lock_held, "[C11] handlers run without the wait lock");
+	if (g_hcalls < 4)
+		g_hstatus[g_hcalls] = status;
+	if (g_hcalls < 4 && verif_in.act[g_hcalls] == 1) {
+		iv_wait_interest_unregister(&v_I);	/* from its own handler */
+		g_I_freed = 1;
+		g_unreg_in_handler = 1;
+	} else if (g_hcalls < 4 && verif_in.act[g_hcalls] == 2 && !g_unreg_other_in_handler) {
+		iv_wait_interest_unregister(&v_J);	/* another interest of the same thread */
+		g_unreg_other_in_handler = 1;
+	}
+	g_hcalls++;
+}
+
+static void v_queue(struct iv_wait_interest *w, int status)
+{
+	struct wait_event *we = malloc(sizeof(*we));
+	__CPROVER_assume(we != NULL);
+	we->status = status;
+	iv_list_add_tail(&we->list, &w->events_pending);
+}
+
+static void v_build_reg(void)
+{
+	v_build();
+	v_tinfo.wait_count = 2;
+	v_tinfo.handled_wait_interest = NULL;
+	v_I.cookie = &v_I;
+	v_I.handler = v_wait_handler;
+	v_J.pid = (v_I.pid == 1) ? 2 : 1;
+	v_J.flags = IV_WAIT_STATUS_DEAD;	/* not in the (one-node) set */
+	INIT_IV_LIST_HEAD(&v_J.events_pending);
+	g_lock_acq = 0;
+}
+
+/* ---- delivery loop with a most general client (bounded: up to 3 queued statuses) ---- */
+void h_completion(void)
+{
+	int n, i, expected_calls;
+
+	v_build_reg();
+	__CPROVER_assume(verif_in.queued <= 3);
+	n = verif_in.queued;
+	INIT_IV_LIST_HEAD(&v_I.events_pending);
+	for (i = 0; i < 3; i++)
+		if (i < n)
+			v_queue(&v_I, 100 + i);
+	__CPROVER_assume(verif_in.act[0] <= 2 && verif_in.act[1] <= 2 && verif_in.act[2] <= 2 && verif_in.act[3] <= 2);
+
+	iv_wait_completion(&v_I);
+
+	/* deliveries stop after the handler that unregistered its own interest, and only then */
+	expected_calls = n;
+	for (i = 0; i < 3; i++)
+		if (i < n && verif_in.act[i] == 1 && i + 1 < expected_calls)
+			expected_calls = i + 1;
+	__CPROVER_assert(g_hcalls == expected_calls, "[C11] every queued status is delivered exactly once, in order, unless the interest itself was unregistered by its handler -- unregistering another interest does not suppress anything");
+	for (i = 0; i < 3; i++)
+		if (i < g_hcalls)
+			__CPROVER_assert(g_hstatus[i] == 100 + i, "[C11] statuses arrive in the order they were queued");
+	__CPROVER_assert(v_tinfo.handled_wait_interest == NULL, "[C11] the delivery marker is cleared afterwards");
+	__CPROVER_assert(!g_lock_held, "[C11] lock released");
+	CANARY();
+}
+
+/* ---- unregister ------------------------------------------------------------------ */
+void h_wait_unregister(void)
+{
+	int count0;
+	struct iv_wait_interest *marker0;
+
+	v_build_reg();
+	__CPROVER_assume(verif_in.queued <= 2);
+	INIT_IV_LIST_HEAD(&v_I.events_pending);
+	if (verif_in.queued >= 1) v_queue(&v_I, 1);
+	if (verif_in.queued >= 2) v_queue(&v_I, 2);
+	__CPROVER_assume(verif_in.sig >= 1 && verif_in.sig < 1000);
+	v_tinfo.wait_count = count0 = verif_in.sig;
+	v_tinfo.handled_wait_interest = marker0 = (verif_in.act[0] == 0) ? NULL : (verif_in.act[0] == 1) ? &v_I : &v_J;
+
+	iv_wait_interest_unregister(&v_I);
+
+	__CPROVER_assert(g_ev_unreg == 1, "[C01,C11] the interest's event leaves the loop");
+	__CPROVER_assert(iv_list_empty(&v_I.events_pending), "[C11,C18] statuses that were still queued are released");
+	__CPROVER_assert(v_tinfo.handled_wait_interest == (marker0 == &v_I ? NULL : marker0), "[C11,C01] a running delivery loop is told to stop iff it is delivering to this very interest; a loop delivering to another interest is not disturbed");
+	__CPROVER_assert(IFF(g_deletes == 1, verif_in.in_tree) && !g_in_tree, "[C11] the interest leaves the pid set unless the reaper already removed it when the child died");
+	__CPROVER_assert(v_tinfo.wait_count == count0 - 1 && IFF(g_sig_unreg == 1, count0 == 1), "[C11] the thread's SIGCHLD interest goes with its last wait interest");
+	__CPROVER_assert(!g_lock_held && g_lock_acq == 1, "[C11,C14] the pid set is changed under the wait lock");
+	CANARY();
+}
+
+/* ---- register / register_spawn ------------------------------------------------------ */
+void h_wait_register(void)
+{
+	int count0;
+
+	v_build_reg();
+	__CPROVER_assume(!verif_in.in_tree);	/* not yet registered: not in the pid set */
+	__CPROVER_assume(verif_in.sig >= 0 && verif_in.sig < 1000);
+	v_tinfo.wait_count = count0 = verif_in.sig;
+	iv_wait_interest_register(&v_I);
+	__CPROVER_assert(g_ev_reg == 1 && v_I.ev.handler == iv_wait_completion && v_I.ev.cookie == &v_I, "[C11] statuses are handed to the registering thread through the interest's event");
+	__CPROVER_assert(iv_list_empty(&v_I.events_pending) && v_I.flags == 0, "[C11] fresh interest: nothing queued, not dead");
+	__CPROVER_assert(IFF(g_sig_reg == 1, count0 == 0) && v_tinfo.wait_count == count0 + 1, "[C11] the thread's SIGCHLD interest comes with its first wait interest");
+	__CPROVER_assert(g_in_tree && !g_lock_held && g_lock_acq == 1, "[C11,C14] inserted into the pid set under the wait lock");
+	CANARY();
+}
+
+static void v_child_fn(void *c) { g_child_fn_calls++; }
+
+void h_wait_register_spawn(void)
+{
+	int r;
+
+	v_build_reg();
+	__CPROVER_assume(!verif_in.in_tree);	/* not yet registered: not in the pid set */
+	__CPROVER_assume(verif_in.kill_ret != 0);	/* parent side */
+	v_tinfo.wait_count = 1;
+	r = iv_wait_interest_register_spawn(&v_I, v_child_fn, NULL);
+	__CPROVER_assert(g_forks == 1, "[C11] one child");
+	if (verif_in.kill_ret < 0) {
+		__CPROVER_assert(r == verif_in.kill_ret && !g_in_tree && g_ev_unreg == 1 && v_tinfo.wait_count == 1, "[C11,C18] a failed fork undoes the registration completely");
+	} else {
+		__CPROVER_assert(r == 0 && v_I.pid == verif_in.kill_ret && g_in_tree, "[C11] the new child's pid is in the pid set before the lock is released: it cannot be missed however quickly it exits");
+		__CPROVER_assert(g_child_fn_calls == 0, "[C11] the child function runs in the child only");
+	}
+	__CPROVER_assert(!g_lock_held, "[C11] lock released on every path");
+	CANARY();
+}
